@@ -462,9 +462,13 @@ fn sweep(case: &TreeCase, m: &Model, t: &dyn DynDs, which: usize, deep: bool, ou
             }
         }
     }
+    if n == 0 {
+        // on the empty sequence every symbol is absent, 0 included
+        absent.extend([0u128, 1, 2, 3]);
+    }
     // above the maximum, up to the type maximum, and across the 32/64-bit boundaries
     let mut above: Vec<u128> = vec![max.saturating_add(1), max.saturating_add(2), ty_max, ty_max - 1];
-    for b in [8u32, 16, 32, 64] {
+    for b in [8u32, 16, 20, 32, 64] {
         if (case.ty.bits() as u32) > b {
             let base = 1u128 << b;
             above.extend([base, base + 1, base.saturating_add(max), base | occurring.first().copied().unwrap_or(0)]);
@@ -500,12 +504,20 @@ fn sweep(case: &TreeCase, m: &Model, t: &dyn DynDs, which: usize, deep: bool, ou
     let past = [n.wrapping_add(1), usize::MAX, (1usize << 63) + n / 2];
     let has_pf = alias.is_quad();
 
+    // all rank / rank_prefetch / select checks, executed in a shuffled order: the model does not care about the
+    // order, and an answer that depends on the previous query (a memo keyed too coarsely, a scratch buffer that
+    // is not cleared on some exit) only shows when unrelated queries follow each other
+    enum Ck {
+        Rank(u128, usize),
+        RankPf(u128, usize),
+        Select(u128, usize),
+    }
+    let mut checks: Vec<Ck> = vec![];
     for &c in syms.iter().chain(absent.iter()) {
         for &i in ranks.iter().chain(past.iter()) {
-            let e = opt_u(expect_rank(alias, m, c, i));
-            sw.check(t, "rank", Q::Rank(Sym(c), i), e.clone(), Some(c), Some(i));
+            checks.push(Ck::Rank(c, i));
             if has_pf {
-                sw.check(t, "rank_prefetch", Q::RankPf(Sym(c), i), e, Some(c), Some(i));
+                checks.push(Ck::RankPf(c, i));
             }
         }
         let cnt = m.count(c);
@@ -516,8 +528,24 @@ fn sweep(case: &TreeCase, m: &Model, t: &dyn DynDs, which: usize, deep: bool, ou
         ks.sort();
         ks.dedup();
         for k in ks {
-            let e = opt_u(expect_select(alias, m, c, k));
-            sw.check(t, "select", Q::Select(Sym(c), k), e, Some(c), Some(k));
+            checks.push(Ck::Select(c, k));
+        }
+    }
+    rng.shuffle(&mut checks);
+    for ck in checks {
+        match ck {
+            Ck::Rank(c, i) => {
+                let e = opt_u(expect_rank(alias, m, c, i));
+                sw.check(t, "rank", Q::Rank(Sym(c), i), e, Some(c), Some(i));
+            }
+            Ck::RankPf(c, i) => {
+                let e = opt_u(expect_rank(alias, m, c, i));
+                sw.check(t, "rank_prefetch", Q::RankPf(Sym(c), i), e, Some(c), Some(i));
+            }
+            Ck::Select(c, k) => {
+                let e = opt_u(expect_select(alias, m, c, k));
+                sw.check(t, "select", Q::Select(Sym(c), k), e, Some(c), Some(k));
+            }
         }
     }
 }
